@@ -37,6 +37,14 @@ def cat(ls):
     return out
 
 
+def _copy_value(v):
+    if isinstance(v, dict):
+        return {k: _copy_value(x) for k, x in v.items()}
+    if isinstance(v, list):
+        return list(v)
+    return v
+
+
 class Machine:
     """Concrete-control, symbolic-data evaluator for one crate function and the helpers it calls."""
 
@@ -157,6 +165,8 @@ class Machine:
     def assign(self, fn, env, place, v):
         l, projs = place
         if not projs:
+            if isinstance(v, dict) and not (fn.locals[l] or "").startswith(("&", "*")):
+                v = _copy_value(v)          # arrays / structs are values: `let mut b = *h` must not alias h
             env[l] = v
             return
         if projs == ["*"]:
@@ -288,12 +298,32 @@ class Machine:
                 return conv(v)
             if isinstance(v, dict) and v.get("k") == "bytes" and ty.startswith("&") and len(v.get("hex", "")) == 2:
                 return ("cref", int(v["hex"], 16))
+            if ty in self.P.adts and isinstance(v, dict) and "k" not in v:
+                return self.const_tree(v, ty)
+            mt = re.match(r"^&\[([\w:]+); (\d+)\]$", ty)
+            if mt and isinstance(v, list) and mt.group(1) in self.P.adts:
+                # reference to a constant array of plain structs (e.g. the u64x2 pairs of the SHA-512 round constants)
+                return self.const_tree(v, "[%s; %s]" % (mt.group(1), mt.group(2)))
             if "def" in d or "promoted" in d:
                 return ("constref", d.get("def") or d.get("promoted"), d)
             if isinstance(v, dict) and v.get("k") == "zst":
                 return None
             return ("k", d)
         return self.read_place(fn, env, op[1])
+
+    def const_tree(self, v, ty):
+        """an evaluated constant of array / struct / integer type as a machine value"""
+        m = re.match(r"^\[(.+); (\d+)\]$", ty)
+        if m:
+            return {i: self.const_tree(x, m.group(1)) for i, x in enumerate(v)}
+        m = re.match(r"^([ui])(\d+)$", ty)
+        if m and isinstance(v, int):
+            return self.B.const(v & ((1 << int(m.group(2))) - 1), int(m.group(2)))
+        adt = self.P.adts.get(ty)
+        if adt and isinstance(v, dict) and len(adt.get("variants", [])) == 1:
+            fs = adt["variants"][0]["fields"]
+            return {i: self.const_tree(v[f["name"]], f["t"]) for i, f in enumerate(fs)}
+        raise Unsupported("constant of type %s" % ty)
 
     def rvalue(self, fn, env, rv):
         k = rv[0]
@@ -370,6 +400,8 @@ class Machine:
                 return not v
             if isinstance(v, tuple) and v and isinstance(v[0], tuple) and rv[1] == "Not":
                 return self.B.not_(v)
+            if rv[1] == "PtrMetadata":
+                return self.seq(v)[2]
             raise Unsupported("unary " + rv[1])
         raise Unsupported("rvalue " + k)
 
@@ -656,6 +688,22 @@ class Machine:
             return None
         if re.search(r"slice::<impl \[T\]>::len$", nm):
             return self.seq(a[0])[2]
+        if re.search(r"slice::<impl \[T\]>::is_empty$", nm):
+            return self.seq(a[0])[2] == 0
+        if re.search(r"slice::<impl \[T\]>::chunks(_exact)?$", nm) and isinstance(a[1], int) and a[1] > 0:
+            cont, base, n = self.seq(a[0])
+            return {"_chunks": [cont, base, base + n, a[1], nm.endswith("_exact")]}
+        if re.search(r"core::slice::Chunks(Exact)?<'a, T> as core::iter::Iterator>::next$", nm) and isinstance(a[0], tuple) and a[0][0] == "lref":
+            it = a[0][1][a[0][2]]
+            st = it.get("_chunks") if isinstance(it, dict) else None
+            if st is None:
+                raise Unsupported("chunk iterator state")
+            cont, lo, hi, n, exact = st
+            if lo >= hi or (exact and hi - lo < n):
+                return ("opt", 0, {})
+            e = min(hi, lo + n)
+            st[1] = e
+            return ("opt", 1, {0: ("aslice", cont, lo, e)})
         if re.search(r"(slice::<impl \[T\]>|array::<impl \[T; N\]>)::as_(mut_)?ptr$", nm) or re.search(r"slice::<impl \[T\]>::as_(mut_)?ptr$", nm):
             x = a[0]
             if isinstance(x, tuple) and x and x[0] == "lref":
